@@ -598,7 +598,16 @@ def step (st : St) (op0 impl : String) : St × StepOut :=
         | some o => if provedNow && !ses.st.stopped && !selfConnection ses.cfg ses.st && !o.alive && !rival
                     then ["authenticated-session-turned-away-without-authenticated-rival"] else []
         | none => []
-      let orc := orc1 ++ orcV ++ violationOracle ses fr impl ++ enumOracle ((st.set (k.toNat?.getD 0) sesO).sessions) impl
+      -- … and a connection that merely ANNOUNCES its name (first `Name` on a fresh server-side session)
+      -- is refused at once only in favour of a session of that name that proved the cookie: an
+      -- unauthenticated squatter cannot veto it
+      let orcN := match fr, ses.st.auth, parseObs? impl with
+        | .auth (.name n), .server .waitingName, some o =>
+          let rivalN := st.sessions.any (fun (k', s) => k' != kn && (s.oGood || s.oRelayed) && !s.oClosed &&
+            (s.st.name.map (·.1)) == some n.name)
+          if !ses.st.stopped && !o.alive && !rivalN then ["connection-refused-without-authenticated-rival"] else []
+        | _, _, _ => []
+      let orc := orc1 ++ orcV ++ orcN ++ violationOracle ses fr impl ++ enumOracle ((st.set (k.toNat?.getD 0) sesO).sessions) impl
       let nt := eff.any (·.gated) || s'.stopped
       -- dials of the advertised loopback listener (other addresses are not dialable and not observed)
       let nc := (eff.filter (fun e => match e with | .connect a => a.startsWith "127.0.0.1:" | _ => false)).length
